@@ -1149,7 +1149,7 @@ func funAbs(v *decimal.Big) (*decimal.Big, error) {
 
 func funCeil(v *decimal.Big) (*decimal.Big, error) {
 	result := newDecimalBig()
-	decimal.Context64.Ceil(result, v)
+	decimal.Context128.Ceil(result, v)
 	return result, nil
 }
 
